@@ -29,7 +29,7 @@ class Undecided(Exception):
 # ----------------------------------------------------------------------------------------
 def parse_vspec(path):
     g = {"name": os.path.basename(path)[:-6], "path": path, "prelude": [], "lemmas": [], "renames": [],
-         "exprmap": [], "macro_map": {}, "units": [], "uses": [], "broadcast": [], "raw": [], "includes": [], "typemap": []}
+         "exprmap": [], "macro_map": {}, "units": [], "uses": [], "broadcast": [], "raw": [], "includes": [], "typemap": [], "bcast_extra": []}
     unit = None
     cur = None  # (target_list_or_dict, key) accumulating text
     buf = []
@@ -98,6 +98,8 @@ def parse_vspec(path):
             elif d == "exprmap":
                 a, b = arg.split("=>")
                 g["exprmap"].append((a.strip(), b.strip()))
+            elif d == "broadcast_use":
+                g["bcast_extra"].append(arg)
             elif d == "typemap":
                 a, b = arg.split("=>")
                 g["typemap"].append((a.strip(), b.strip()))
@@ -331,11 +333,14 @@ def assemble(group, outs, vac_names=None):
         for u in uses:
             lines.append(f"    use super::vx_{u}::*;")
         lines.append("    verus!{")
+        ub = []
         for u in uses:
             for pn, _, _, pb in preludes:
                 if pn == u:
                     for b in pb:
-                        lines.append(f"    broadcast use super::vx_{u}::{b};")
+                        ub.append(f"super::vx_{u}::{b}")
+        if ub:
+            lines.append("    broadcast use {" + ", ".join(ub) + "};")
         lines += text.split("\n")
         lines.append("    }")
         lines.append("}")
@@ -346,8 +351,9 @@ def assemble(group, outs, vac_names=None):
     for n, _, _, _ in preludes:
         lines.append(f"    use super::vx_{n}::*;")
     lines.append("    verus!{")
-    for b in bcasts:
-        lines.append(f"    broadcast use super::{b};")
+    all_b = [f"super::{b}" for b in bcasts] + list(group.get("bcast_extra", []))
+    if all_b:
+        lines.append("    broadcast use {" + ", ".join(all_b) + "};")
     line_map = []
     for inc in group["includes"]:
         t = open(os.path.join(VERIF, "prelude", "inc", inc + ".rs")).read()
@@ -395,8 +401,9 @@ def assemble(group, outs, vac_names=None):
                     lines.append("    use super::*;")
                     lines.append("    verus!{")
                     up = "super::" * (depth + 2)
-                    for b in bcasts:
-                        lines.append(f"    broadcast use {up}{b};")
+                    all_b2 = [f"{up}{b}" for b in bcasts] + list(group.get("bcast_extra", []))
+                    if all_b2:
+                        lines.append("    broadcast use {" + ", ".join(all_b2) + "};")
                     depth += 1
                 open_mod = wrap
         start = len(lines) + 1
